@@ -6,6 +6,10 @@ CircuitEmitterCount, CircuitCnotCount, CircuitUnitaryCount, CircuitMeasureCount,
 CircuitMaxEmitResetDepth, CircuitMaxEmitEffDepth) and `register_depth` are evaluated on the real circuit and by the Lean
 model of the same code (`dag.metrics` for circuits built by `add`, `dag.run … qs=m` for circuits reached by arbitrary
 edit histories); integers compared exactly.
+On every history-built circuit the statement of `C18.metrics_eq_spec_on_any_schedule` / `metrics_after_history` is executed: the
+operation nodes in the implementation's topological order, with their operations as wired on the model's wires, must form a schedule
+(`every_topological_order_is_a_schedule`), and the driver's `Spec.*` on that operation list must equal the model's metrics, the
+implementation's metrics and the harness' definitions.
 Direct oracle (independent of the model, of graphiq helpers and of networkx): each metric recomputed from the
 operation list `sequence()` by its definition (ASAP layering over shared registers, counting by class, per-emitter wire
 = filter of the list); also evaluated with explicit penalty functions (result must be penalty(value)) and with default
@@ -20,7 +24,8 @@ TRUSTED_BASE = [
     "Lean 4.33 kernel",
     "hand-written models GraphiqModel/Model/{Dag,Metrics}.lean tied to circuit_dag.py / metrics.py by this correspondence run "
     "(differential testing, bounded by the generators)",
-    "networkx dag_longest_path_length = number of edges of a longest path (specification; checked on every observed value)",
+    "networkx dag_longest_path_length = number of edges of a longest path (specification; checked on every observed value); "
+    "networkx topological_sort returns a linear extension (specification; the sorted order is checked to be a schedule of the model's wires on every history input)",
     "harness, line protocol, own Python re-computation of every metric from the operation list",
 ]
 ASSUMPTIONS = [
@@ -30,7 +35,8 @@ ASSUMPTIONS = [
     "whether CZ / parameterised gates belong to the 'unitary count' is not demanded: the definition counts SigmaX, SigmaY, SigmaZ, Phase, "
     "PhaseDagger, Hadamard, CNOT after unwrapping, identities dropped (metrics.py docstring and label list)",
     "log_steps bookkeeping (log, _inc) is not part of the property",
-    "user labels (op.add_labels) do not collide with class names or register-type descriptions (the counts are label-index based)",
+    "user labels (op.add_labels) do not collide with class names or register-type descriptions (the counts are label-index based); the theorems "
+    "assume no user labels at all (PlainOp) — circuits with non-colliding user labels are covered by the per-input evaluation of the same equalities",
 ]
 
 COUNTED = ["SigmaX", "SigmaY", "SigmaZ", "Phase", "PhaseDagger", "Hadamard", "CNOT"]
